@@ -426,6 +426,9 @@ def compute_shared_sites(codes):
                 if any(x.opname in ("STORE_SUBSCR", "DELETE_SUBSCR") for x in nxt) or (
                         nxt and nxt[0].opname in ("LOAD_ATTR", "LOAD_METHOD") and nxt[0].argval in _MUTATORS):
                     written = ins.argval
+                    if d.get(ins.offset, ("check",))[0] == "check":
+                        # a write to a shared container: one of possibly many (a table filled in place)
+                        d[ins.offset] = ("wr", ins.argval)
         if co in mutable_default_codes:
             offs.add(2)                   # a function with a mutable default argument
         if co in wrapped:
@@ -567,6 +570,7 @@ class Sched:
         self._parked_exc = []           # threads parked inside an exception path
         self.exc_parks = 0
         self._held_keys = set()
+        self._wr_count = [0] * n
         self._release_after = {}        # thread that just passed the check -> thread to wake next
         self.holds_fired = 0
         self._hold_on = bool(policy.get("hold")) and policy["kind"] in ("shared", "random", "window") and explicit is None
@@ -705,7 +709,15 @@ class Sched:
             # about to touch a second shared container after a first one: parked until another
             # thread has looked at the first one and gone on for a while (the two are inconsistent)
             key = ("2",) + key
-        if ent[0] in ("act", "act2"):
+        if ent[0] == "wr":
+            # a write to a shared container, the k-th such write of this thread (k per run: 1, 2 or 5):
+            # parked in the middle of filling it until another thread has looked at it and gone on
+            self._wr_count[tid] += 1
+            if self._wr_count[tid] == self.policy.get("hold_k", 2):
+                key = ("2",) + key
+            else:
+                ent = ("check", ent[1])
+        if ent[0] in ("act", "act2", "wr"):
             if self._holds[tid] < 2 and key not in self._held_keys:
                 cands = [c for c in self.runnable(exclude=tid) if c not in self._held]
                 if cands:
